@@ -30,6 +30,30 @@ const INTERVAL: Duration = Duration::from_millis(5000);
 const ITEM_BYTES_SIZE: usize = size_of::<HeaderIndexView>();
 const WARN_THRESHOLD: usize = ITEM_BYTES_SIZE * 100_000;
 
+/// verif hooks: a header map without the background spill timer, and a synchronous spill.
+#[cfg(feature = "verif-hooks")]
+impl HeaderMap {
+    /// Same structure as `new`, limit given in items, no timer task.
+    pub fn verif_new<P>(tmpdir: Option<P>, item_limit: usize, ibd_finished: Arc<AtomicBool>) -> Self
+    where
+        P: AsRef<path::Path>,
+    {
+        Self {
+            inner: Arc::new(HeaderMapKernel::new(tmpdir, item_limit, ibd_finished)),
+        }
+    }
+
+    /// What the timer task does every interval.
+    pub fn verif_limit_memory(&self) {
+        self.inner.limit_memory()
+    }
+
+    /// (items in memory, items in the backend)
+    pub fn verif_counts(&self) -> (usize, usize) {
+        (self.inner.memory.verif_len(), self.inner.backend.len())
+    }
+}
+
 impl HeaderMap {
     pub fn new<P>(
         tmpdir: Option<P>,
